@@ -290,3 +290,76 @@ package jen
 //@   free requires tree: treeOK()
 //@   ensures [C14] same: result == fmtOf(LoneSt(C_pGroup(g), nil).out)
 //@   panics [C14] renderfailed: err != nil
+
+// ---- hints and anonymous imports ----
+
+//@ func (*File).Anon [C04,C08,C09,C19]
+//@   requires f != nil && f.imports != nil
+//@   modifies mapof(f.imports)
+//@   ensures [C04] anon: forall q string :: { mapof(f.imports).val[q] } (exists j int :: 0 <= j && j < len(paths) && paths[j] == q)
+//@       ? (has(f.imports, q) && f.imports[q] == mk_importdef("_", true))
+//@       : (has(f.imports, q) == old(has(f.imports, q)) && f.imports[q] == old(f.imports[q]))
+//@   loop 1 invariant sofar: forall q string :: { mapof(f.imports).val[q] } (exists j int :: 0 <= j && j < $i && paths[j] == q)
+//@       ? (has(f.imports, q) && f.imports[q] == mk_importdef("_", true))
+//@       : (has(f.imports, q) == old(has(f.imports, q)) && f.imports[q] == old(f.imports[q]))
+//@   loop 1 invariant bound: $i <= len(paths) && cells(paths) == old(cells(paths))
+
+//@ func (*File).ImportName [C04,C08]
+//@   requires f != nil && f.hints != nil && f.hints != f.imports
+//@   modifies mapof(f.hints)
+//@   ensures [C04,C08] noimport: mapof(f.imports) == old(mapof(f.imports))
+//@   ensures hint: f.hints[path] == mk_importdef(name, false) && (forall q string :: q != path ==> f.hints[q] == old(f.hints[q]))
+
+//@ func (*File).ImportAlias [C04,C08]
+//@   requires f != nil && f.hints != nil && f.hints != f.imports
+//@   modifies mapof(f.hints)
+//@   ensures [C04,C08] noimport: mapof(f.imports) == old(mapof(f.imports))
+//@   ensures hint: f.hints[path] == mk_importdef(alias, true) && (forall q string :: q != path ==> f.hints[q] == old(f.hints[q]))
+
+//@ func (*File).ImportNames [C04,C07,C08]
+//@   requires f != nil && f.hints != nil && f.hints != f.imports && names != f.hints && names != f.imports
+//@   modifies mapof(f.hints)
+//@   ensures [C04,C08] noimport: mapof(f.imports) == old(mapof(f.imports))
+//@   ensures [C07] hints: forall q string :: { mapof(f.hints).val[q] } f.hints[q] == (has(names, q) ? mk_importdef(names[q], false) : old(f.hints[q]))
+//@   loop 1 invariant sofar: forall q string :: { mapof(f.hints).val[q] } f.hints[q] == (($m.dom[q] && $idx[q] < $i) ? mk_importdef($m.val[q], false) : old(f.hints[q]))
+//@   loop 1 invariant same: mapof(f.imports) == old(mapof(f.imports)) && $m == old(mapof(names))
+
+// ---- tag ----
+
+//@ func (tag).render [C17,C07,C02,C01]
+//@   implements Code.render
+//@   unfold R null stable wfImp
+//@   loop 1 cut
+//@   loop 1 invariant collect: len(sorted) == $i && (forall j int :: { sorted[j] } (0 <= j && j < $i) ==> sorted[j] == $ks[j]) && ($i > 0 ==> sorted.arr > old(alloc)) && ($i == 0 ==> cap(sorted) == 0) && len(sorted) <= cap(sorted)
+//@   loop 1 invariant same: $m == mapof(t.items) && $n > 0 && finiteStr($m) && written[w] == old(written[w]) && mapof(f.imports) == old(mapof(f.imports)) && regpre(f) && Fof(f) == old(Fof(f)) && nwrites[w] == old(nwrites[w]) && failed[w] == old(failed[w])
+//@   loop 2 cut
+//@   loop 2 invariant bound: $i <= len(sorted) && len(sorted) == len(t.items) && len(t.items) > 0 && finiteStr(mapof(t.items))
+//@   loop 2 invariant entry members: forall j int :: { sorted[j] } (0 <= j && j < len(sorted)) ==> has(t.items, sorted[j])
+//@   loop 2 invariant entry ascending: forall i int, j int :: { sorted[i], sorted[j] } (0 <= i && i < j && j < len(sorted)) ==> sorted[i] < sorted[j]
+//@   loop 2 invariant entry marker: isSortedEnumS(cells(sorted), mapof(t.items))
+//@   loop 2 invariant sorted: forall j int :: { sorted[j] } (0 <= j && j < len(sorted)) ==> sorted[j] == sortedKeysS(mapof(t.items))[j]
+//@   loop 2 invariant same: written[w] == old(written[w]) && mapof(f.imports) == old(mapof(f.imports)) && regpre(f) && Fof(f) == old(Fof(f)) && nwrites[w] == old(nwrites[w]) && failed[w] == old(failed[w])
+//@   loop 2 invariant unfold(TagBody) body: str == TagBody(sortedKeysS(mapof(t.items)), mapof(t.items), $i) && ($i > 0 ==> str != "")
+
+// ---- Dict ----
+
+//@ func (Dict).isNull [C13,C16,C04]
+//@   implements Code.isNull
+//@   unfold null
+//@   loop 1 invariant none: forall j int :: { $ks[j] } (0 <= j && j < $i) ==> !live($ks[j], $m.val[$ks[j]], Fof(f), mapof(f.imports))
+//@   loop 1 invariant same: $m == mapof(d)
+
+//@ func (Dict).render [C16,C07,C02,C08,C04,C13]
+//@   implements Code.render
+//@   unfold null treeOK stable wfImp
+//@   loop 1 invariant lk: forall t string :: { mapof(lookup).val[t] } has(lookup, t) ==> (okRecv(lookup[t].k) && okRecv(lookup[t].v) && has(d, lookup[t].k) && d[lookup[t].k] == lookup[t].v)
+//@   loop 1 invariant ks: forall j int :: { keys[j] } (0 <= j && j < len(keys)) ==> has(lookup, keys[j])
+//@   loop 1 invariant [C16] distinct: len(keys) == len(lookup)
+//@   loop 1 invariant fresh: lookup > old(alloc) && lookup != nil && (len(keys) > 0 ==> keys.arr > old(alloc)) && len(keys) <= cap(keys) && (len(keys) == 0 ==> keys.arr > old(alloc) || cap(keys) == 0)
+//@   loop 1 invariant file: regpre(f) && Fof(f) == old(Fof(f)) && stable(old(mapof(f.imports)), mapof(f.imports)) && $m == old(mapof(d))
+//@   loop 1 invariant wsame: written[w] == old(written[w]) && nwrites[w] == old(nwrites[w]) && failed[w] == old(failed[w])
+//@   loop 2 invariant lk: forall t string :: { mapof(lookup).val[t] } has(lookup, t) ==> (okRecv(lookup[t].k) && okRecv(lookup[t].v) && has(d, lookup[t].k) && d[lookup[t].k] == lookup[t].v)
+//@   loop 2 invariant ks: forall j int :: { keys[j] } (0 <= j && j < len(keys)) ==> has(lookup, keys[j])
+//@   loop 2 invariant [C16,C07] ordered: forall i int, j int :: { keys[i], keys[j] } (0 <= i && i < j && j < len(keys)) ==> keys[i] <= keys[j]
+//@   loop 2 invariant fresh: lookup > old(alloc) && lookup != nil && (len(keys) > 0 ==> keys.arr > old(alloc))
+//@   loop 2 invariant file: regpre(f) && Fof(f) == old(Fof(f)) && stable(old(mapof(f.imports)), mapof(f.imports))
